@@ -521,3 +521,90 @@ def check_c09(ctx):
                  "nothing later is skipped; AtLeastOnce - nothing is skipped (the redelivery bound persist_every is not checked); "
                  "non-trivial = distinct program that rotated a block, reopened or had a rejected operation",
                  CRASH_ASSUME)
+
+
+def check_c11(ctx):
+    """C11: FNV + header-bounds theorems; byte-level correspondence (checksum, header layout); mutation harness (oracle only)."""
+    mods = ["WalrusVerif.Props.C11"]
+    translator(ctx)
+    banned_scan(ctx)
+    lean_build(ctx, mods)
+    if ctx.tier == "thorough" and not ctx.tie_broken:
+        leanchecker(ctx, mods)
+    binp, err = cargo_build(ctx, "engine_harness", small=True)
+    nmut = 5000 if ctx.tier == "thorough" else 700
+    cov = {}
+    if binp is None:
+        ctx.tie_broken.append(err)
+    else:
+        out = os.path.join(ctx.scratch, "mut")
+        env = dict(ENV)
+        env["VERIF_NPROG"] = str(nmut)
+        rc, o, dt = run([binp, "mutate", out], env=env, timeout=3000)
+        log("harness mutate: rc=%d (%.1fs)" % (rc, dt))
+        if rc != 0:
+            ctx.tie_broken.append("mutation harness failed: %s" % o[-300:])
+        else:
+            stats = json.load(open(os.path.join(out, "stats.json")))
+            # byte-level correspondence: checksum64 and the header layout
+            ndiff = 0
+            nreq = 0
+            for name in ("fnv", "hdr"):
+                ops = os.path.join(out, name + "_ops.txt")
+                imp = os.path.join(out, name + "_impl.txt")
+                mod = os.path.join(out, name + "_model.txt")
+                ok = False
+                if os.path.exists(WDRIVER):
+                    with open(ops, "rb") as fi, open(mod, "wb") as fo:
+                        ok = subprocess.run([WDRIVER], stdin=fi, stdout=fo).returncode == 0
+                if not ok:
+                    ctx.tie_broken.append("wdriver could not be run on the %s requests" % name)
+                    continue
+                a = open(imp).read().split("\n")
+                b = open(mod).read().split("\n")
+                o_ = open(ops).read().split("\n")
+                nreq += len([x for x in o_ if x])
+                for i, (x, y) in enumerate(zip(a, b)):
+                    if x != y:
+                        ndiff += 1
+                        if ndiff <= 3:
+                            ctx.tie_broken.append("correspondence %s: request %r implementation=%r model=%r" % (name, o_[i][:80], x, y))
+            # oracle on the damaged directories
+            vio = [l.split("\t") for l in open(os.path.join(out, "violations.txt")).read().split("\n") if l]
+            samples = []
+            for l in open(os.path.join(out, "mutations.tsv")).read().split("\n")[6:12]:
+                f = l.split("\t")
+                if len(f) >= 5:
+                    samples.append({"mutation": f[2], "backend": f[1], "process": f[3], "outputs": f[4][:300]})
+            if vio:
+                body = ["# property C11 violated by the implementation: damaged directory, fresh process", "# columns: mutation number, backend, mutation, what happened"]
+                body += ["\t".join(v) for v in vio[:40]]
+                body.append("# re-run: harness/target-small/release/engine_harness mutate <outdir> with VERIF_SEED=%d VERIF_NPROG=%d" % (ctx.seed, nmut))
+                path = write_replay(ctx, "mutations", "\n".join(body) + "\n")
+                ctx.violations.append((path, ""))
+            control = [l for l in open(os.path.join(out, "mutations.tsv")).read().split("\n")[:6] if "control" in l]
+            cov = {
+                "evaluations": stats.get("mutations", 0),
+                "distinct_nontrivial": sum(v for k, v in stats.items() if k.startswith("mut_") and "control" not in k),
+                "rule": "each case = an engine-produced directory (6 bases: fd/mmap x 3 workloads with rotation, batches, consumed positions, markers) with ONE "
+                        "seeded damage: WAL bit flip / byte overwrite / zeroed range / 0xff range aimed at meta_len, archived metadata, header starts, size+checksum "
+                        "fields or anywhere in the used region; truncation of a WAL file (0, inside data, block boundary, near the end); bit flip / truncation / zeroed "
+                        "range / byte near the root / random replacement of the cursor index or the marker file; stray .tmp, text, digit-named file or directory. "
+                        "Opened in a fresh process that queries counts and markers, reads both topics dry through read_next / batch / offset reads and appends again. "
+                        "non-trivial = every mutated (non-control) case; distinct by construction (position/seed differ)",
+                "samples": samples or ["(none)"],
+                "mutation_histogram": stats,
+                "control_runs": len(control),
+                "byte_level_requests_compared": nreq,
+                "byte_level_disagreements": ndiff,
+                "programs": stats.get("mutations", 0),
+                "disagreements_checked": nreq,
+                "oracle_violations": len(vio),
+                "search": {"mutations": stats.get("mutations", 0), "oracle_violations": len(vio)},
+            }
+    ctx.cov.update(cov)
+    ctx.cov.setdefault("samples", ["(harness did not run)"])
+    ctx.assumptions = ["memory safety is observed through the exit status / panics of the fresh process, not proved",
+                       "one damage per directory; the damage model is the listed mutation kinds",
+                       "payload identity: a returned payload must equal (or be a suffix of, for offset reads) a payload appended to that topic"]
+    finish(ctx, trusted_base=TRUSTED + ["rkyv's validator (check_archived_root) is trusted to implement the position checks modelled in Model/Header.lean"])
